@@ -97,6 +97,24 @@ func c37Deref(v ssa.Value) ssa.Value {
 	return v
 }
 
+// c37SubSliced: v is (derived from) a re-sliced part x[a:b] of a list rather than the whole list.
+func c37SubSliced(v ssa.Value) bool {
+	for i := 0; i < 6; i++ {
+		v = c37Deref(v)
+		sl, ok := v.(*ssa.Slice)
+		if !ok {
+			return false
+		}
+		if sl.Low != nil || sl.High != nil {
+			if _, isArr := sl.X.Type().Underlying().(*types.Pointer); !isArr { // not the varargs array
+				return true
+			}
+		}
+		v = sl.X
+	}
+	return false
+}
+
 // c37Ref names a value a function works with: one of its parameters, or (fld != nil) a
 // field of a struct parameter (passed by value or by pointer) that carries it.
 type c37Ref struct {
@@ -440,6 +458,25 @@ func c37Resolve(p *an.Prog) *c37Roles {
 			r.cancelWants = g
 		}
 	}
+	if r.cancelWants == nil {
+		// only one of the entry points still uses it (the other one is then reported by the
+		// cleanup-chain check): the single unexported method taking exactly a key list
+		var cands []*ssa.Function
+		for _, set := range []map[*ssa.Function]bool{a, b} {
+			for g := range set {
+				ps := g.Signature.Params()
+				if ps.Len() != 1 || g.Signature.Results().Len() != 0 {
+					continue
+				}
+				if sl, ok := ps.At(0).Type().Underlying().(*types.Slice); ok && an.TypeIs(sl.Elem(), c37CidP, "Cid") {
+					cands = append(cands, g)
+				}
+			}
+		}
+		if len(cands) == 1 {
+			r.cancelWants = cands[0]
+		}
+	}
 	return r
 }
 
@@ -680,6 +717,10 @@ func runC37(c *an.Ctx) {
 								}
 							}
 							okTopics, why = fromKeys, "topics are not computed from Subscribe's own keys"
+							if fromKeys && c37SubSliced(tc.Call.Args[0]) {
+								fromKeys = false
+								okTopics, why = false, "topics are computed from only a part of the subscribed key list"
+							}
 							if fromKeys {
 								n := 0
 								for _, ap := range an.Calls(g, an.M("builtin", "", "append")) {
@@ -1090,6 +1131,34 @@ func runC37Getter(c *an.Ctx) {
 					okOrder = false
 				}
 			}
+			// both the subscription and the want request cover the caller's whole key list
+			okKeys := len(subs) == 1
+			keyLists := []ssa.Value{}
+			if len(subs) == 1 {
+				sa := an.Args(subs[0])
+				if len(sa) >= 2 {
+					keyLists = append(keyLists, sa[len(sa)-1])
+				}
+			}
+			for _, w := range wantCalls {
+				wa := w.(ssa.CallInstruction).Common().Args
+				if len(wa) == 2 {
+					keyLists = append(keyLists, wa[1])
+				}
+			}
+			for _, kl := range keyLists {
+				if c37SubSliced(kl) {
+					okKeys = false
+				}
+				for _, r := range an.Roots(kl, nil) {
+					if par, ok := r.(*ssa.Parameter); !ok || par.Parent() != fn {
+						okKeys = false
+					}
+				}
+			}
+			c.Check(okKeys, "O3", "R-FLOW", name, "Subscribe/want<=all-keys", fn.Pos(),
+				"the subscription and the want request are made for the caller's complete key list",
+				"AsyncGetBlocks subscribes to, or requests, something other than the complete list of keys it was given: some requested blocks are never delivered (or never asked for)")
 			c.Check(okOrder, "O3", "R-DOM", name, "Subscribe-before-want", fn.Pos(),
 				"the subscription exists before the wants are sent",
 				"AsyncGetBlocks sends the wants before (or without) subscribing to the notifier: a block answered quickly is published before anyone listens and is never delivered")
@@ -1314,8 +1383,10 @@ func runC37Chain(c *an.Ctx) {
 	fOp, fKeys := R.fOp, R.fKeys
 	// the cancel operation: the constant of the operation kind on whose edge the run loop (or the
 	// dispatcher it hands the operation to) calls Cancel of the want sender
-	var kCancel constant.Value
-	{
+	var kindsFound []constant.Value
+	kindLeadingTo := func(ms ...an.Matcher) constant.Value {
+		var kCancel constant.Value
+		kindsFound = nil
 		isOpRead0 := func(v ssa.Value) bool {
 			switch x := v.(type) {
 			case *ssa.Field:
@@ -1334,16 +1405,15 @@ func runC37Chain(c *an.Ctx) {
 				continue
 			}
 			// candidate sites: the Cancel call itself, or a call of a helper that (transitively) makes it
-			mCancel := an.M(c37Ses, R.swsName, "Cancel")
 			var cands []ssa.CallInstruction
-			cands = append(cands, an.Calls(d, mCancel)...)
+			cands = append(cands, an.Calls(d, ms...)...)
 			for _, hc := range an.AllCalls(d) {
 				h := an.Callee(hc).Static
 				if h == nil || h == d || h.Blocks == nil || h.Pkg != d.Pkg {
 					continue
 				}
 				for _, g := range c34Closure(h) {
-					if len(an.Calls(g, mCancel)) > 0 {
+					if len(an.Calls(g, ms...)) > 0 {
 						cands = append(cands, hc)
 						break
 					}
@@ -1368,11 +1438,17 @@ func runC37Chain(c *an.Ctx) {
 					})
 					if len(edges) > 0 && an.GuardedBy(d, nil, call.(ssa.Instruction), edges) {
 						kCancel = k
+						kindsFound = append(kindsFound, k)
 					}
 				}
 			}
 		}
+		return kCancel
 	}
+	// the want operation(s): the kinds on whose edge the run loop registers the session's interest
+	kindLeadingTo(an.M(c37SIM, "SessionInterestManager", "RecordSessionInterest"))
+	wantKinds := kindsFound
+	kCancel := kindLeadingTo(an.M(c37Ses, R.swsName, "Cancel"))
 	if kCancel == nil {
 		c.Bad("O4", "R-EXH", an.FuncName(R.run), "handles-opCancel", R.run.Pos(), "no operation kind of the session's run loop leads to Cancel of the want sender: cancelled requests keep their wants")
 		return
@@ -1388,6 +1464,7 @@ func runC37Chain(c *an.Ctx) {
 			// the callback: a function literal, a method value (s.enqueueCancel: closure of the
 			// synthetic bound-method wrapper), or a plain function; the operation may also be
 			// enqueued by a package-local function the callback hands its keys to
+			curKinds := []constant.Value{kCancel}
 			var sendsCancel func(g *ssa.Function, keys ssa.Value, depth int) bool
 			sendsCancel = func(g *ssa.Function, keys ssa.Value, depth int) bool {
 				if g == nil || g.Blocks == nil || keys == nil || depth > 3 {
@@ -1439,8 +1516,12 @@ func runC37Chain(c *an.Ctx) {
 									continue
 								}
 								if f == fOp {
-									if k, ok := an.ConstOf(st.Val); ok && constant.Compare(k, token.EQL, kCancel) {
-										okOp = true
+									if k, ok := an.ConstOf(st.Val); ok {
+										for _, ck := range curKinds {
+											if constant.Compare(k, token.EQL, ck) {
+												okOp = true
+											}
+										}
 									}
 								}
 								if f == fKeys && c37Deref(st.Val) == keys {
@@ -1468,6 +1549,32 @@ func runC37Chain(c *an.Ctx) {
 			c.Check(good, "O4", "R-FLOW", an.FuncName(fn), "cancel-callback=>op{opCancel,keys}", call.Pos(),
 				"the session's cancel callback enqueues opCancel with the keys it is given",
 				"the cancel callback the session hands to AsyncGetBlocks does not enqueue op{opCancel, keys} for its argument: keys remaining when a request ends are never cancelled")
+			// the want callback (the argument before it) enqueues the want operation with its keys
+			if len(wantKinds) == 0 {
+				c.Bad("O4", "R-EXH", an.FuncName(R.run), "handles-opWant=>RecordSessionInterest", R.run.Pos(),
+					"no operation kind of the session's run loop registers the session's interest in the requested keys (RecordSessionInterest): received blocks are not recognised as wanted and are never delivered")
+			} else if len(args) >= 2 {
+				var wcb *ssa.Function
+				switch x := c37Deref(args[len(args)-2]).(type) {
+				case *ssa.MakeClosure:
+					wcb, _ = x.Fn.(*ssa.Function)
+				case *ssa.Function:
+					wcb = x
+				}
+				goodW := false
+				if wcb != nil {
+					curKinds = wantKinds
+					for _, q := range wcb.Params {
+						if sl, ok := q.Type().Underlying().(*types.Slice); ok && an.TypeIs(sl.Elem(), c37CidP, "Cid") {
+							goodW = goodW || sendsCancel(wcb, q, 0)
+						}
+					}
+					curKinds = []constant.Value{kCancel}
+				}
+				c.Check(goodW, "O4", "R-FLOW", an.FuncName(fn), "want-callback=>op{opWant,keys}", call.Pos(),
+					"the session's want callback enqueues the want operation with the keys it is given",
+					"the want callback the session hands to AsyncGetBlocks does not enqueue the operation that makes the run loop register and request its keys (it sends another kind, or other keys): the requested blocks are never asked for and never delivered")
+			}
 		}
 	}
 	c.Min("O4 Session callers of AsyncGetBlocks", nL2, 1)
@@ -1679,7 +1786,10 @@ func runC37Chain(c *an.Ctx) {
 				"received wanted keys are cancelled for this session",
 				"Session.handleReceive does not pass its own id and the wanted keys returned by sessionWants.BlocksReceived to CancelSessionWants: received blocks stay on the want-list (or another session's wants are cancelled)")
 		}
-		c.Min("O4 CancelSessionWants in handleReceive", n, 1)
+		if n == 0 {
+			c.Bad("O4", "R-EXH", an.FuncName(hr), "receive=>CancelSessionWants", hr.Pos(),
+				"the session's receive handler never calls CancelSessionWants: blocks that were received stay registered as wanted and are never cancelled at the peers, the want-list keeps their CIDs after the request completed")
+		}
 	}
 	// L4: sessionWantSender forwards cancels with its session id
 	fSwsID := R.fSwsID
